@@ -1,6 +1,8 @@
 package contractcourt
 
 import (
+	"github.com/btcsuite/btcd/chainhash/v2"
+	"sort"
 	"bytes"
 	"crypto/sha256"
 	"fmt"
@@ -52,7 +54,17 @@ var zzSweepScript = append([]byte{0x51, 0x20}, bytes.Repeat([]byte{0x17}, 32)...
 // offered input (sequence and locktime exactly as the input demands), lets
 // the input craft its own witness and runs the script interpreter against
 // the REAL previous output.
+// zzBatch collects, while one confirmed commitment is examined, every input
+// that spends an output of THAT commitment, so that they can also be validated
+// inside one aggregated sweep transaction (the real sweeper batches inputs; an
+// input that signs for the wrong index only shows at index > 0).
+var zzBatch *[]input.Input
+var zzBatchTxid *chainhash.Hash
+
 func zzSpendInput(signer input.Signer, inp input.Input, prevOuts map[wire.OutPoint]*wire.TxOut) error {
+	if zzBatch != nil && zzBatchTxid != nil && inp.OutPoint().Hash == *zzBatchTxid {
+		*zzBatch = append(*zzBatch, inp)
+	}
 	tx := wire.NewMsgTx(2)
 	tx.AddTxIn(&wire.TxIn{PreviousOutPoint: inp.OutPoint(), Sequence: inp.BlocksToMaturity()})
 	if lt, ok := inp.RequiredLockTime(); ok {
@@ -79,6 +91,82 @@ func zzSpendInput(signer input.Signer, inp input.Input, prevOuts map[wire.OutPoi
 	tx.TxIn[0].Witness = scr.Witness
 	tx.TxIn[0].SignatureScript = scr.SigScript
 	return zzVerifyInput(tx, 0, prevOuts)
+}
+
+// zzSpendBatch validates the collected inputs inside aggregated sweep
+// transactions: one per required locktime; inputs that commit to an output
+// at their own index (SINGLE|ANYONECANPAY second-level inputs) come first,
+// each paired with its required output, then the others, then one change
+// output. Every input crafts its witness for ITS index and is executed in the
+// script interpreter.
+func zzSpendBatch(r *simcore.Run, who string, signer input.Signer, batch []input.Input, prevOuts map[wire.OutPoint]*wire.TxOut) {
+	groups := map[uint32][]input.Input{}
+	var keys []uint32
+	seen := map[wire.OutPoint]bool{}
+	for _, inp := range batch {
+		if seen[inp.OutPoint()] {
+			continue
+		}
+		seen[inp.OutPoint()] = true
+		lt, _ := inp.RequiredLockTime()
+		if _, ok := groups[lt]; !ok {
+			keys = append(keys, lt)
+		}
+		groups[lt] = append(groups[lt], inp)
+	}
+	sort.Slice(keys, func(i, j int) bool { return keys[i] < keys[j] })
+	for _, lt := range keys {
+		g := groups[lt]
+		if len(g) < 2 {
+			continue
+		}
+		var ordered []input.Input
+		for _, inp := range g {
+			if inp.RequiredTxOut() != nil {
+				ordered = append(ordered, inp)
+			}
+		}
+		for _, inp := range g {
+			if inp.RequiredTxOut() == nil {
+				ordered = append(ordered, inp)
+			}
+		}
+		tx := wire.NewMsgTx(2)
+		tx.LockTime = lt
+		var change int64
+		for _, inp := range ordered {
+			tx.AddTxIn(&wire.TxIn{PreviousOutPoint: inp.OutPoint(), Sequence: inp.BlocksToMaturity()})
+			if ro := inp.RequiredTxOut(); ro != nil {
+				tx.AddTxOut(ro)
+			} else {
+				change += inp.SignDesc().Output.Value
+			}
+		}
+		if change > 400 {
+			change -= 400
+		}
+		tx.AddTxOut(&wire.TxOut{Value: change, PkScript: zzSweepScript})
+		fetcher, err := input.MultiPrevOutFetcher(ordered)
+		if err != nil {
+			r.Harness("batch prev out fetcher: %v", err)
+		}
+		hc := zzSigHashes(tx, fetcher)
+		for i, inp := range ordered {
+			scr, err := inp.CraftInputScript(signer, tx, hc, fetcher, i)
+			if err != nil {
+				r.Fail("batch-sweep-invalid-witness", "%s: input %d/%d (%v, %v) of an aggregated sweep: CraftInputScript: %v", who, i, len(ordered), inp.WitnessType(), inp.OutPoint(), err)
+			}
+			tx.TxIn[i].Witness = scr.Witness
+			tx.TxIn[i].SignatureScript = scr.SigScript
+		}
+		for i, inp := range ordered {
+			if err := zzVerifyInput(tx, i, prevOuts); err != nil {
+				r.Fail("batch-sweep-invalid-witness", "%s: input %d/%d (%v) of an aggregated sweep transaction fails script validation although the same input validates alone: %v", who, i, len(ordered), inp.WitnessType(), err)
+			}
+			r.Count("script_validations")
+		}
+		r.Count("probe_aggregated_sweep_validated")
+	}
 }
 
 func zzOuts(tx *wire.MsgTx) map[wire.OutPoint]*wire.TxOut {
@@ -212,7 +300,7 @@ func zzOwnCommit(r *simcore.Run, s *chansim.Sim, x int, pre map[[32]byte][32]byt
 	if err != nil {
 		r.Fail("force-close", "%s: no contract resolutions: %v", who, err)
 	}
-	zzCheckResolutions(r, s, fp, who, ctx, &lc, res.CommitResolution, res.HtlcResolutions, true, pre)
+	zzCheckResolutions(r, s, fp, who, ctx, &lc, res.CommitResolution, res.HtlcResolutions, res.AnchorResolution, true, pre)
 }
 
 // zzLiveForceClose: ForceClose on the live object of side x while it holds an
@@ -245,7 +333,7 @@ func zzLiveForceClose(r *simcore.Run, s *chansim.Sim, x int, pre map[[32]byte][3
 	if err != nil {
 		r.Fail("force-close", "%s: no contract resolutions: %v", who, err)
 	}
-	zzCheckResolutions(r, s, p, who, ctx, &durable, res.CommitResolution, res.HtlcResolutions, true, pre)
+	zzCheckResolutions(r, s, p, who, ctx, &durable, res.CommitResolution, res.HtlcResolutions, res.AnchorResolution, true, pre)
 }
 
 // zzRemoteCommit: the peer's commitment confirms; recognised through the real
@@ -302,20 +390,58 @@ func zzRemoteCommit(r *simcore.Run, s *chansim.Sim, x int, tx *wire.MsgTx, c *ch
 		}
 	}
 	r.Count("conf_commit_key_checks")
-	zzCheckResolutions(r, s, fp, who, tx, c, info.CommitResolution, info.HtlcResolutions, false, pre)
+	zzCheckResolutions(r, s, fp, who, tx, c, info.CommitResolution, info.HtlcResolutions, info.AnchorResolution, false, pre)
 }
 
 // zzCheckResolutions launches the real resolvers for one confirmed commitment
 // and validates every spend.
 func zzCheckResolutions(r *simcore.Run, s *chansim.Sim, fp *chansim.Party, who string, ctx *wire.MsgTx,
 	c *channeldb.ChannelCommitment, cr *lnwallet.CommitOutputResolution, hr *lnwallet.HtlcResolutions,
-	ours bool, pre map[[32]byte][32]byte) {
+	ar *lnwallet.AnchorResolution, ours bool, pre map[[32]byte][32]byte) {
 
 	st := fp.Chan.State()
 	outs := zzOuts(ctx)
 	txid := ctx.TxHash()
 	chanPoint := st.FundingOutpoint
 	const height = 700000
+	var batch []input.Input
+	zzBatch, zzBatchTxid = &batch, &txid
+	defer func() {
+		zzBatch, zzBatchTxid = nil, nil
+		if p := recover(); p != nil {
+			panic(p) // a verdict is already on its way
+		}
+		zzSpendBatch(r, who, fp.Signer, batch, outs)
+	}()
+
+	// In half of the examinations the resolutions are the ones a RESTARTED
+	// node works with: written to the real arbitrator log and read back
+	// (taproot control blocks, tap tweaks and sign descriptors must survive
+	// the encoding).
+	if r.Draw(2) == 1 && hr != nil && (ar != nil || !st.ChanType.IsTaproot()) {
+		var chainHash chainhash.Hash
+		alog, err := newBoltArbitratorLog(fp.DB.Backend, ChannelArbitratorConfig{ChanPoint: chanPoint}, chainHash, chanPoint)
+		r.Must(err, "arbitrator log")
+		in := &ContractResolutions{CommitHash: txid, CommitResolution: cr, HtlcResolutions: *hr, AnchorResolution: ar}
+		if err := alog.LogContractResolutions(in); err != nil {
+			r.Fail("resolutions-not-persisted", "%s: LogContractResolutions: %v", who, err)
+		}
+		back, err := alog.FetchContractResolutions()
+		if err != nil {
+			r.Fail("resolutions-not-persisted", "%s: FetchContractResolutions after logging them: %v", who, err)
+		}
+		if (back.CommitResolution == nil) != (cr == nil) ||
+			len(back.HtlcResolutions.IncomingHTLCs) != len(hr.IncomingHTLCs) ||
+			len(back.HtlcResolutions.OutgoingHTLCs) != len(hr.OutgoingHTLCs) {
+
+			r.Fail("resolutions-not-persisted", "%s: the arbitrator log returns %d incoming / %d outgoing HTLC resolutions (commit resolution %v), %d / %d (%v) were logged", who,
+				len(back.HtlcResolutions.IncomingHTLCs), len(back.HtlcResolutions.OutgoingHTLCs), back.CommitResolution != nil,
+				len(hr.IncomingHTLCs), len(hr.OutgoingHTLCs), cr != nil)
+		}
+		cr, hr = back.CommitResolution, &back.HtlcResolutions
+		who += " [resolutions read back from the arbitrator log]"
+		r.Count("probe_resolutions_via_arbitrator_log")
+	}
 
 	// --- our balance output ------------------------------------------------
 	balSat := zzSatFloor(uint64(c.LocalBalance))
